@@ -146,11 +146,16 @@ impl SizeManifest {
         }
 
         // Validate total_size matches sum of esizes
-        let computed_total: u64 = self.entries.iter().map(|e| e.esize).sum();
-        if computed_total != self.header.total_size() {
+        // esize is up to 8 bytes wide, so the sum can leave u64: that is a
+        // mismatch as well, not an arithmetic overflow.
+        let computed_total = self
+            .entries
+            .iter()
+            .try_fold(0u64, |acc, e| acc.checked_add(e.esize));
+        if computed_total != Some(self.header.total_size()) {
             return Err(SizeError::TotalSizeMismatch {
                 expected: self.header.total_size(),
-                actual: computed_total,
+                actual: computed_total.unwrap_or(u64::MAX),
             });
         }
 
